@@ -323,8 +323,11 @@ def build_harness(name, variant="san", cxx="g++", extra_flags=(), sources=None, 
         return exe
 
 
-SAN_ENV = {"ASAN_OPTIONS": "detect_leaks=0:abort_on_error=0:exitcode=99",
-           "UBSAN_OPTIONS": "print_stacktrace=1:halt_on_error=1:exitcode=98"}
+# abort_on_error: every sanitizer death raises SIGABRT, which the harness' handler (or the parent of
+# a forked child) turns into an oracle failure carrying the current case as replay.  (libasan and
+# libubsan each keep their own death-callback slot, so a callback alone misses UBSan reports.)
+SAN_ENV = {"ASAN_OPTIONS": "detect_leaks=0:abort_on_error=1:exitcode=99",
+           "UBSAN_OPTIONS": "print_stacktrace=1:halt_on_error=1:abort_on_error=1:exitcode=98"}
 
 
 # --------------------------------------------------------------------------
